@@ -9,15 +9,16 @@ from ..common import hx, key_family, pick, run_cases, sk
 ID = "C19"
 LEVEL = "fault_enumeration"
 TECHNIQUE = "fault injection in the user callback: every subset of items marked to raise before / after updating the sketches, crossed with worker schedules, enumerated in-process against the real worker loop (result oracle on the surviving contributions); worker death injected in-process (BaseException) and in real spawned runs (os._exit) with a 'must raise, must not hang' oracle and a CPU-progress hang detector"
-RULE = ("case = (items, fault marks per item in {none, raise_before, raise_after, exit}, n_workers 1..3, schedule, sketch combination); quick: "
-        "all 27 mark vectors of 3 items x all 24 schedules on 2 workers plus sampled 4-item cases; thorough: all 81 mark vectors of 4 items x "
-        "all 360 schedules on 3 workers (sharded); real spawned death runs with n_workers in {1,2,3}; non-trivial = at least one item is marked; "
+RULE = ("case = (items, fault marks per item in {none, raise_before, raise_after, exit}, n_workers 1..3, schedule, sketch combination); both "
+        "tiers: all 64 mark vectors of 3 items x all 24 schedules on 2 workers plus sampled cases of up to 5 items (this core is never cut short "
+        "by the time budget); thorough, as far as the budget goes: all 256 mark vectors of 4 items x all 360 schedules on 3 workers (sharded; the "
+        "number completed is reported, not required); real spawned death runs with n_workers in {1,2,3}; non-trivial = at least one item is marked; "
         "distinct = by case digest")
 ASSUMPTIONS = ["in-process: a dying worker is simulated by a BaseException escaping the worker function (exit code 3); the real os._exit path is covered by the spawned runs",
                "termination is judged on logical progress (the steered context reports a would-block) and, for spawned runs, on a generous wall-clock budget followed by a CPU-progress sample; a slow but progressing run is inconclusive, not a violation"]
 LEVEL_TEXT = ("Fault enumeration over which items fail and how, crossed with schedules, against the real _worker / parallel_add code; "
               "surviving contributions and n_records are checked exactly. Worker death must surface as an exception from parallel_add.")
-LEVEL_NOTE = "exhaustive within the stated bounds; real process death observed on Linux/spawn only"
+LEVEL_NOTE = "exhaustive for 3 items on 2 workers in every run; the 4-items-on-3-workers enumeration of the thorough tier is complete only when the evidence counter exhaustive_fault_x_schedule_cases_4x3 reaches 92160; real process death observed on Linux/spawn only"
 BUDGET = {"quick": 150, "thorough": 480}
 SHARDS = {"quick": 1, "thorough": 16}
 SHM_LEAK_IS_VIOLATION = False
@@ -149,9 +150,20 @@ def gen_cases(ctx):
         items = P.gen_items(rng, n, keys, marks={i: pick(rng, ["raise_before", "raise_after", "raise_custom"]) for i in range(n) if i not in good})
         yield {"type": "spawned_raise", "items": items, "n_workers": 2, "combo": list(COMBO_ALL), "args": P.gen_args(rng, COMBO_ALL, "linear"),
                "timeout": 900, "item_kind": "dict", "many_raising": n - 40}
-    # --- exhaustive: mark vectors x schedules
-    n_items, n_workers = (3, 2) if q else (4, 3)
-    base = ctx.rng("exh")
+    # --- core (never cut short by the time budget): all mark vectors x all schedules of 3 items on 2 workers, and sampled runs
+    yield from exhaustive(ctx, 3, 2)
+    yield from sampled(ctx, rng, 0, 300 if q else max(40, 640 // ns))
+    if q:
+        return
+    # --- depth (thorough tier, as far as the budget goes): 4 items on 3 workers exhaustively (sharded), then more samples
+    yield {"deep": True}
+    yield from exhaustive(ctx, 4, 3)
+    yield from sampled(ctx, rng, 10**6, 10**9)
+
+
+def exhaustive(ctx, n_items, n_workers):
+    sh, ns = ctx.shard, ctx.nshards
+    base = ctx.rng("exh", n_items, n_workers)
     keys = key_family(base, 5, 0, 8)
     proto = P.gen_items(base, n_items, keys)
     for it in proto:
@@ -160,16 +172,18 @@ def gen_cases(ctx):
         it["records"] = max(1, it["records"])
     args = P.gen_args(base, COMBO_ALL, "linear")
     combos = list(itertools.product(itertools.product(MARKS, repeat=n_items), fakectx.all_schedules(n_items, n_workers)))
-    if not q:
+    if not ctx.quick:
         combos = combos[sh::ns]
     for marks, sched in combos:
         items = [dict(it, mark=m) for it, m in zip(proto, marks)]
         yield {"type": "inproc", "items": items, "n_workers": n_workers, "combo": list(COMBO_ALL), "args": args,
                "schedule": {str(w): v for w, v in sched.items()}, "exhaustive": [n_items, n_workers],
                "item_kind": P.ITEM_KINDS[(hash(marks) + sum(len(v) * (w + 1) for w, v in sched.items())) % len(P.ITEM_KINDS)]}
-    # --- sampled: more items, 1..3 workers, all combinations, incl. simulated death
-    n_rand = 300 if q else 10**9
-    for j in range(n_rand):
+
+
+def sampled(ctx, rng, j0, n_rand):
+    """More items, 1..3 workers, all sketch combinations, incl. simulated death."""
+    for j in range(j0, j0 + n_rand):
         combo = P.COMBOS[j % 7]
         nw = 1 + j % 3
         n_items = int(rng.integers(1, 6))
@@ -193,7 +207,7 @@ def run_case(case, ctx, mon):
     if case["type"] == "inproc":
         run_inproc_case(case, ctx, mon)
         if "exhaustive" in case:
-            mon.count("exhaustive_fault_x_schedule_cases")
+            mon.count("exhaustive_fault_x_schedule_cases" if case["exhaustive"] == [3, 2] else "exhaustive_fault_x_schedule_cases_4x3")
     elif case["type"] == "spawned_raise":
         run_spawned_raise_case(case, ctx, mon)
     else:
@@ -207,7 +221,19 @@ def run(ctx, mon):
     # CPython's resource tracker warns about re-entrancy then (harmless here, segments are censused separately)
     warnings.filterwarnings("ignore", message="ResourceTracker called reentrantly")
     state.fast_del(True)
-    run_cases(ctx, mon, gen_cases(ctx), run_case)
+    gen = gen_cases(ctx)
+
+    def core():
+        for c in gen:
+            if c.get("deep"):
+                return
+            yield c
+
+    # the core part decides the verdict and always runs to the end; the rest deepens it while the budget lasts
+    run_cases(ctx, mon, core(), run_case, time_bound=False)
+    run_cases(ctx, mon, gen, run_case)
+    if ctx.thorough:
+        mon.extra(exhaustive_4x3_total=256 * 360)
     mon.extra(exhaustive=True, exhaustive_scope="mark vectors {none,raise_before,raise_after}^n x all schedules: n=3 items/2 workers (quick), n=4 items/3 workers (thorough)")
 
 
@@ -217,7 +243,7 @@ def replay(case, ctx, mon):
 
 
 def floors(mon, ctx):
-    mon.floor("exhaustive fault x schedule cases", mon.counters["exhaustive_fault_x_schedule_cases"], 64 * 24 if ctx.quick else 256 * 360)
+    mon.floor("exhaustive fault x schedule cases (3 items, 2 workers: 64 mark vectors x 24 schedules)", mon.counters["exhaustive_fault_x_schedule_cases"], 64 * 24)
     mon.floor("in-process runs with marked items", mon.counters["inproc_runs_with_marked_items"], 200)
     mon.floor("in-process simulated deaths", mon.counters["inproc_death_runs"], 20)
     mon.floor("real death runs completed", mon.counters["spawned_death_runs_completed"], 2)
